@@ -16,6 +16,10 @@ export VERIF_HOME=$MX/verif VERIF_REPO=$MX/repo CARGO_TARGET_DIR=$MX/target CARG
 cd $MX/repo && git init -q . && git add -A >/dev/null && git -c user.email=x@x -c user.name=x commit -qm base
 OUT=/verif/seeded/matrix.json
 [ $NSH -gt 1 ] && OUT=/verif/seeded/matrix.$SH.json
+# OWN=1: only the claimed property's check per change (regression of detection with the final checks);
+# shards then write /verif/seeded/own.<shard>.json (merge: tools/matrix_merge.py own)
+OWN=${OWN:-0}
+[ $OWN -eq 1 ] && OUT=/verif/seeded/own.$SH.json
 echo "{" > $OUT.tmp
 first=1
 CHECKS="C01 C02 C03 C04 C05 C06 C07 C08 C09 C10 C11 C12 C13 C14 C15 C16 C17 C18 C19 C20"
@@ -26,6 +30,7 @@ for d in /verif/seeded/C*/; do
   cd $MX/repo && git checkout -q -- . && git apply $d/patch.diff || { echo "no apply $s"; continue; }
   (cd $MX/verif/mc && cargo build --release --offline -q 2>/dev/null) || { echo "build failed $s"; continue; }
   caught=""
+  [ $OWN -eq 1 ] && CHECKS=${s%%-*}
   for c in $CHECKS; do
     (cd $MX/verif && timeout 600 $MX/target/release/mc $c --tier quick >/dev/null 2>&1); rc=$?
     if [ $rc -eq 1 ]; then caught="$caught\"$c\","; elif [ $rc -ne 0 ]; then caught="$caught\"$c:rc$rc\","; fi
